@@ -64,7 +64,17 @@ impl Prop for C11 {
         // `print` arguments are evaluated (and polled) like any other expression
         gcfg.print = rng.chance(1, 2);
         gcfg.scan_bias = 2;
-        let case = build_case(rng, &gcfg, 10, 10, 6);
+        let mut case = build_case(rng, &gcfg, 10, 10, 6);
+        if rng.chance(1, 4) {
+            // a stanza with an empty body still has its matches processed (and polled)
+            use crate::gen::ast::*;
+            let q = *rng.pick(&["(identifier)", "(module)", "(expression_statement)", "(call)"]);
+            let at = rng.below(case.prog.file.items.len() + 1);
+            case.prog.file.items.insert(at, Item::Stanza(GStanza { query: q.into(), pool: None, stmts: vec![], loc: Loc::default() }));
+            case.prog.file.number();
+            case.text = crate::gen::print::print_house(&mut case.prog.file);
+            out.feat("program_with_an_empty_stanza");
+        }
         let tree = parse_python(&case.source);
         let ti = TreeInfo::new(&tree);
         if ti.anomaly.is_some() {
